@@ -458,3 +458,60 @@ mod if_std {
 
 #[cfg(feature = "std")]
 pub use self::if_std::*;
+
+#[cfg(futures_intrusive_verif)]
+mod verif_hooks {
+    use super::*;
+    use crate::verif::{waker_id, NodeInfo, Snapshot};
+
+    fn node_info(node: &HeapNode<TimerQueueEntry>) -> NodeInfo {
+        NodeInfo {
+            addr: node as *const _ as usize,
+            state: match node.state {
+                PollState::Unregistered => 0,
+                PollState::Registered => 1,
+                PollState::Expired => 2,
+            },
+            waker: waker_id(&node.task),
+            extra: node.expiry,
+            links: node.verif_links(),
+        }
+    }
+
+    impl<MutexType: RawMutex> GenericTimerService<MutexType> {
+        /// Verification hook: read-only snapshot of the internal state.
+        /// The queue lists the heap nodes in pre-order.
+        pub fn verif_snapshot(&self) -> Snapshot {
+            let state = self.inner.lock();
+            let mut nodes = alloc::vec::Vec::new();
+            state
+                .waiters
+                .verif_for_each_preorder(1 << 16, &mut |n| {
+                    nodes.push(node_info(n))
+                });
+            Snapshot {
+                flags: alloc::vec![
+                    ("now", state.clock.now()),
+                    ("root", state.waiters.verif_root() as u64),
+                ],
+                queues: alloc::vec![("heap", nodes)],
+            }
+        }
+    }
+
+    impl<'a> LocalTimerFuture<'a> {
+        /// Verification hook: the futures own wait node. Must not be called
+        /// while another thread is inside a critical section of the timer.
+        pub fn verif_node(&self) -> NodeInfo {
+            node_info(&self.wait_node)
+        }
+    }
+
+    impl<'a> TimerFuture<'a> {
+        /// Verification hook: the futures own wait node. Must not be called
+        /// while another thread is inside a critical section of the timer.
+        pub fn verif_node(&self) -> NodeInfo {
+            self.timer_future.verif_node()
+        }
+    }
+}
